@@ -1567,6 +1567,9 @@ def r6_big(facts, rep, names):
                 badf.append("after one turn the remainder is %r" % (rem_now,))
             if kind(tk) != "take" or not same(tk.field(1), T("-", N, K(1)), GRID_LU):
                 badf.append("the budget becomes %r; specified n - 1" % (tk,))
+            # the count of whole-part digits (it becomes the exponent) is not touched by a fraction digit
+            if Lu in live2 and F2 == FB and not same(h.local(s_, Lu, FB), U, GRID_LU):
+                badf.append("a fraction digit changes the count of printed whole-part digits to %r (it is the exponent)" % (h.local(s_, Lu, FB),))
         elif s_.end == "ret":
             if n0 is True:
                 seen.add("budget-exit")
